@@ -9,6 +9,9 @@
 (*   next V*V lines    {"op":"eq", "i": i, "j": j, "out": "T" | "F" | "exc:<class>" | "other:<type>"}   *)
 (*                     in row-major order, so that Cell(i, j) is a direct index                *)
 (*   then              {"op":"in", "i": i, "seq": <<j1, ..>>, "out": ..}   in_(x_i, [x_j1, ..]) *)
+(*   then              {"op":"call", "h": history, "step": k, "x": .., "y": .., "out": ..}     *)
+(*                     eq(x, y) on two live objects in a history of in-place writes; x, y are  *)
+(*                     the descriptors the objects project to at the moment of the call        *)
 (* Verdict of an "eq" line (i, j): the axioms of the statement as far as they involve the cell *)
 (* - boolean, reflexive on structural copies and on other realisations of the same value       *)
 (* (another insertion order of a dict, other memory: "other_realisation_unequal"), symmetric    *)
@@ -51,6 +54,17 @@ InVerdict(o) ==
         ELSE IF clean /\ m # (IF hit = {} THEN "F" ELSE "T") THEN "+in_not_membership"
         ELSE ""
 
+\* eq(x, y) in the middle of a history of in-place writes: x and y are the descriptors the two objects project to
+\* at the moment of the call - the answer is judged against what the statement pins for THOSE, whatever was
+\* answered about the same two objects earlier
+CallVerdict(o) ==
+    LET m == o.out IN
+    IF ~ConcreteOK(o.x) \/ ~ConcreteOK(o.y) THEN "+bad_descriptor"
+    ELSE LET cl == (IF ~IsB(m) THEN "+not_boolean" ELSE "")
+                \o (IF m = "F" /\ ClauseIfFC(o.x, o.y) # "" THEN "+" \o ClauseIfFC(o.x, o.y) ELSE "")
+                \o (IF m = "T" /\ ClauseIfTC(o.x, o.y) # "" THEN "+" \o ClauseIfTC(o.x, o.y) ELSE "")
+         IN  IF cl = "" THEN "" ELSE cl \o "@" \o AtC(o.x, o.y)
+
 WellFormed(o) == o.id + 1 <= Len(Obs) /\ Obs[1 + o.id] = o
 
 Verdict(o) ==
@@ -58,6 +72,7 @@ Verdict(o) ==
       [] o.op = "val" -> IF ~WellFormed(o) THEN "+misplaced_value" ELSE IF ~ConcreteOK(o.desc) THEN "+bad_descriptor" ELSE ""
       [] o.op = "eq"  -> IF Obs[1 + NV + (o.i - 1) * NV + o.j] = o THEN CellVerdict(o) ELSE "+misplaced_cell"
       [] o.op = "in"  -> InVerdict(o)
+      [] o.op = "call" -> CallVerdict(o)
       [] OTHER -> "+unknown_op"
 
 Init == BatchInit
